@@ -496,6 +496,7 @@ func sweepTasks(r *hx.Rand, total int) []*task {
 		"char":                {P("2^64"), P("2^64+3"), P("-1"), P("2^31-1"), P("2^31"), P("2^63"), P("10^30")},
 		"parse_json":          {P("json-text-hugeexp"), P("json-text"), P("10kB-digits")},
 		"text":                {P("json:1E999999999"), P("json-hugeexp-inside"), P("1E1000")},
+		"format":              {{named("['a\\nb','']", vArr(vText("a\nb"), vText("")))}, {named("['','x\\ny']", vArr(vText(""), vText("x\ny")))}},
 		"word":                {P("'abc def ghi'", "2^31-1"), P("'abc def ghi'", "-2^31"), P("'abc def ghi'", "3"), P("'abc def ghi'", "-1", "nil"), P("''", "0")},
 		"word_slice":          {P("'abc def ghi'", "1", "0"), P("'abc def ghi'", "2", "1"), P("'abc def ghi'", "0", "2^31-1"), P("'abc def ghi'", "3", "-1"), P("'abc def ghi'", "-1")},
 		"field":               {P("'a,b,,c'", "2^31-1", "' , '"), P("'a,b,,c'", "-1", "''"), P("'a,b,,c'", "3", "''"), P("''", "0", "' '")},
@@ -546,6 +547,8 @@ func sweepTasks(r *hx.Rand, total int) []*task {
 	}
 
 	families := relatedFamilies()
+	composites := compositeValues()
+	pool = append(pool, composites...)
 	names := append(allNames(), opNames...)
 	per := total / len(names)
 	if per < 20 {
@@ -584,6 +587,16 @@ func sweepTasks(r *hx.Rand, total int) []*task {
 					for _, b := range fam {
 						add([]VSpec{a, b})
 					}
+				}
+			}
+		}
+		// every composite value alone, and one in four of them with a second argument on either side
+		if kind == "call" {
+			for _, c := range composites {
+				add([]VSpec{c})
+				if rr.Chance(1, 4) {
+					add([]VSpec{c, hx.Pick(rr, pool)})
+					add([]VSpec{hx.Pick(rr, pool), c})
 				}
 			}
 		}
